@@ -203,7 +203,17 @@ class Body:
                 self.edit(t.start, toks[j].end, "()", "R1-log")
                 i = j + 1
                 continue
-            # tracing::warn!(...) etc.
+            # `Marker::X(..).log();` — the crate's structured log markers
+            if t.kind == "ident" and t.text == "Marker" and toks[i + 1].text == "::" and toks[i - 1].text in (";", "{", "}"):
+                j = i
+                while j < self.close and toks[j].text != ";":
+                    if toks[j].kind == "punct" and toks[j].text in OPEN:
+                        j = match_close(toks, j)
+                    j += 1
+                if toks[j - 1].text == ")" and toks[j - 3].text == "log" :
+                    self.edit(t.start, toks[j - 1].end, "()", "R1-marker-log")
+                    i = j
+                    continue
             i += 1
 
     def rule_inspect_err_logging(self):
